@@ -284,6 +284,9 @@ func Run(c *common.Ctx) error {
 	if err := dropDuringCommit(c, c.Rng.Fork()); err != nil {
 		return err
 	}
+	if err := dropNeverWritten(c, c.Rng.Fork()); err != nil {
+		return err
+	}
 	for _, ps := range [][2]int{{4096, 1024}, {512, 4096}, {1024, 1024}} {
 		if err := snapshotAcrossDrop(c, c.Rng.Fork(), ps[0], ps[1]); err != nil {
 			return err
@@ -451,5 +454,85 @@ func dropDuringCommit(c *common.Ctx, r *common.Rand) error {
 			}
 		}
 	}
+	return nil
+}
+
+// dropNeverWritten: "create ... drop" with nothing written in between - an application creates the database file and
+// removes it again (touch, rm) - at the very start and again between two lives of the database. The drop is a
+// transaction like any other (position + 1, empty checksum, files gone, replicas follow), and the log continues.
+func dropNeverWritten(c *common.Ctx, r *common.Rand) error {
+	dir, err := os.MkdirTemp(c.OutDir, "c15n-")
+	if err != nil {
+		return err
+	}
+	defer os.RemoveAll(dir)
+	clu := cluster.New(dir, 2*time.Second)
+	defer clu.Close()
+	p, err := clu.Start("p", true)
+	if err != nil {
+		return err
+	}
+	if clu.WaitPrimary(5*time.Second) == nil {
+		return fmt.Errorf("no primary")
+	}
+	r1, err := clu.Start("r1", false)
+	if err != nil {
+		return err
+	}
+	rep := map[string]any{"kind": "drop-never-written"}
+	ctx := context.Background()
+	emptyDrop := func(what string) bool {
+		before := dbPos(p.Store)
+		db, f, err := p.Store.CreateDB("db")
+		if err != nil {
+			c.Violate("C15:never-written:create", fmt.Sprintf("%s: the database cannot be created: %v", what, err), rep)
+			return false
+		}
+		_ = f.Close()
+		derr := db.Drop(ctx)
+		c.Evaluations++
+		c.Distinct("never-written:" + what)
+		after := dbPos(p.Store)
+		if derr != nil {
+			c.Violate("C15:never-written:drop", fmt.Sprintf("%s: a database that was created and never written cannot be removed: %v (position (%d,%016x), files left: %v)", what, derr, after.TXID, after.Chk, filesPresent(p.Dir)), rep)
+			return false
+		}
+		if after.TXID != before.TXID+1 || after.Chk != lfs.ChecksumFlag {
+			c.Violate("C15:never-written:position", fmt.Sprintf("%s: the drop moved the position from (%d,%016x) to (%d,%016x); want TXID+1 with the empty checksum", what, before.TXID, before.Chk, after.TXID, after.Chk), rep)
+			return false
+		}
+		if fp := filesPresent(p.Dir); len(fp) > 0 {
+			c.Violate("C15:never-written:files-left", fmt.Sprintf("%s: after the drop the primary still has %v", what, fp), rep)
+			return false
+		}
+		if !cluster.WaitPos(r1, "db", after.TXID, after.Chk, 10*time.Second) {
+			c.Violate("C15:never-written:replica", fmt.Sprintf("%s: the replica did not reach the drop position (%d,%016x); at %v exits=%v", what, after.TXID, after.Chk, dbPos(r1.Store), r1.Exits()), rep)
+			return false
+		}
+		if fp := filesPresent(r1.Dir); len(fp) > 0 {
+			c.Violate("C15:never-written:replica-files", fmt.Sprintf("%s: the replica has %v after the drop", what, fp), rep)
+			return false
+		}
+		return true
+	}
+	if !emptyDrop("first life") {
+		return nil
+	}
+	ps := []int{512, 4096}[r.Intn(2)]
+	h := hist.NewOn(c, r.Fork(), hist.Config{PageSize: ps}, p.Store, p.Exits, "db", &lfs.Image{PageSize: ps}, dbPos(p.Store).TXID, false)
+	if !commitN(h, 2) {
+		last := h.Obs[len(h.Obs)-1]
+		c.Violate("C15:never-written:recreate", fmt.Sprintf("after the drop of a never-written database writes are refused: %s%s", last.Err, last.Panic), rep)
+		return nil
+	}
+	if pp := dbPos(p.Store); pp.TXID != 3 || !cluster.WaitPos(r1, "db", pp.TXID, pp.Chk, 10*time.Second) {
+		c.Violate("C15:never-written:continues", fmt.Sprintf("after the drop (1) and two transactions the primary is at %v and the replica at %v; want TXID 3 on both", pp, dbPos(r1.Store)), rep)
+		return nil
+	}
+	if ob := h.Exec(hist.Step{Op: "drop"}); ob.Err != "" || ob.Panic != "" {
+		c.Violate("C15:never-written:drop-written", "drop failed: "+ob.Err+ob.Panic, rep)
+		return nil
+	}
+	emptyDrop("between two lives")
 	return nil
 }
